@@ -80,6 +80,9 @@ func (t *UTransport) dial(ctx context.Context, addr net.Addr, host string, tlsCo
 		if err := t.QUICSpec.InitialPacketSpec.validate(t.QUICSpec.UDPDatagramMinSize, int(conf.InitialPacketSize)); err != nil {
 			return nil, err
 		}
+		if err := validateFrameBuilder(t.QUICSpec.InitialPacketSpec.FrameBuilder); err != nil {
+			return nil, err
+		}
 		t.QUICSpec.UpdateConfig(conf)
 		initialPN = t.QUICSpec.InitialPacketSpec.initialPN()
 	}
